@@ -17,6 +17,7 @@ import (
 )
 
 type Engine struct {
+	siteCache  map[*ssa.Function]*siteTable
 	prog       *ssa.Program
 	fset       *token.FileSet
 	pkgs       []*packages.Package
